@@ -246,8 +246,7 @@ def wrap (t : Tree) (bp : Path) (a : Attr) (lo hi : Nat) (ctor : List Tree → T
   (t', forwardWrap bp a lo hi wrapAttr)
 
 /-- the hypothesis `_forward_wrap` relies on: the constructor puts the wrapped statements
-    directly into the wrapper's `wrapAttr` block (`DoAddLoop(guard=True)` violated it before
-    7d3e13bb; it now performs two direct wraps and composes the forwardings) -/
+    directly into the wrapper's `wrapAttr` block (`DoAddLoop(guard=True)` violates it: F16, recorded) -/
 def WrapDirect (ctor : List Tree → Tree) (wrapAttr : Attr) : Prop :=
   ∀ nodes, (ctor nodes).children wrapAttr = nodes
 
